@@ -1,6 +1,7 @@
 package revocation
 
 import (
+	"github.com/gr33nbl00d/caddy-revocation-validator/config"
 	"crypto/x509"
 
 	"github.com/gr33nbl00d/caddy-revocation-validator/zz_verif/verifrt"
@@ -48,4 +49,49 @@ func VerifC19_CertFile() {
 	verifrt.Reach("block")
 	verifrt.Assert(err == nil && got == want, "the certificate inside the PEM block is loaded whatever precedes the block")
 	_ = seen
+}
+
+// VerifC19_CertLists: n = 0..3 trusted CRL-signer files and m = 0..3 trusted OCSP-responder files are configured
+// (the same list twice in a row: a configuration is parsed again on reload). Every file's certificate ends up
+// in the effective configuration, once, in the order written; an unreadable file fails the configuration.
+func VerifC19_CertLists() {
+	names := []string{"/etc/pki/a.pem", "/etc/pki/b.pem", "/etc/pki/c.pem"}
+	certs := map[string]*x509.Certificate{}
+	for _, n := range names {
+		certs[n] = &x509.Certificate{}
+	}
+	bad := -1
+	if verifrt.Choose(2) == 1 {
+		bad = verifrt.Choose(3)
+	}
+	verifrt.Override(modRoot+".parseCertFromFile", func(f string) (*x509.Certificate, error) {
+		if bad >= 0 && f == names[bad] {
+			return nil, verifrt.NewError("no CERTIFICATE pem block found")
+		}
+		return certs[f], nil
+	})
+	n := verifrt.Choose(4)
+	crlCfg := &config.CRLConfig{TrustedSignatureCertsFiles: names[:n]}
+	ocspCfg := &config.OCSPConfig{TrustedResponderCertsFiles: names[:n]}
+	e1 := parseTrustedCrlSignerCerts(crlCfg)
+	e2 := parseTrustedOcspResponderCerts(ocspCfg)
+	if verifrt.Choose(2) == 1 && e1 == nil && e2 == nil {
+		// parsed a second time (reload of the same configuration object)
+		e1 = parseTrustedCrlSignerCerts(crlCfg)
+		e2 = parseTrustedOcspResponderCerts(ocspCfg)
+	}
+	if bad >= 0 && bad < n {
+		verifrt.Reach("unreadable-file")
+		verifrt.Assert(e1 != nil && e2 != nil, "a trusted certificate file that cannot be loaded fails the configuration")
+		return
+	}
+	verifrt.Reach("cert-lists")
+	verifrt.Assert(e1 == nil && e2 == nil, "readable trusted certificate files parse")
+	verifrt.Assert(len(crlCfg.TrustedSignatureCerts) == n && len(ocspCfg.TrustedResponderCerts) == n, "one trusted certificate per configured file (none lost, none doubled)")
+	if len(crlCfg.TrustedSignatureCerts) == n && len(ocspCfg.TrustedResponderCerts) == n {
+		for i := 0; i < n; i++ {
+			verifrt.Assert(crlCfg.TrustedSignatureCerts[i] == certs[names[i]], "trusted CRL signers in the order of the files")
+			verifrt.Assert(ocspCfg.TrustedResponderCerts[i] == certs[names[i]], "trusted OCSP responders in the order of the files")
+		}
+	}
 }
